@@ -154,6 +154,11 @@ Definition handle (req : sexp) : sexp :=
                         tagged "ok" [sexp_of_expr (ast t')]]
       | _, _ => bad "c04"
       end
+  | SList (Atom "arcops" :: n :: ops) =>
+      match sexp_N n, opt_map_list op_of_sexp ops with
+      | Some n', Some ops' => arc_answer (N.to_nat n') ops'
+      | _, _ => bad "arcops"
+      end
   | SList [Atom "heap"; SList (Atom "env" :: es); prog] =>
       match opt_map_list env_entry es, hexpr_of_sexp prog with
       | Some entries, Some e => heap_answer entries e
